@@ -50,6 +50,8 @@ def run(ck, progs):
                      "exhaustive small domain and a recognised shape), each branch moves a bound strictly past the midpoint, and new arenas are "
                      "inserted in address order")
     ck.rule("C12.7", "buddy-tree bookkeeping on small order values: every node starts with order total - depth; the search goes right exactly when the left subtree cannot hold the request; freeing sets the parent to order + 1 only when both halves are wholly free, else to the larger; the size reported for a freed block is 1 << its order")
+    ck.rule("C12.10", "the field that reports the old block size to rs_realloc is wide enough for the largest block (a whole arena)")
+    ck.rule("C12.11", "array_add_at (the arena table) and array_push take no pointer into the element array before the array can be reallocated")
     ck.rule("C12.9", "a new arena is inserted into the LP's arena table at the index equal to the number of arenas with a lower address (the "
                      "table stays sorted, which the binary search of rs_free / rs_realloc relies on): interpreted for 0..5 arenas x every rank")
     ck.rule("C12.8", "the requested size reaches the size-class computation at full width: no narrowing conversion is applied to the size itself (requests of 4 GiB and more must fail, not be served as their low 32 bits)")
@@ -58,6 +60,9 @@ def run(ck, progs):
         rules_buddy.check(ck, P, "C12.7")
         rules_buddy.check_no_narrowing(ck, P, "C12.8")
         rules_buddy.check_arena_insert(ck, P, "C12.9")
+        rules_buddy.check_result_field_width(ck, P, "C12.10")
+        from .. import rules_array
+        rules_array.check_cached_items(ck, P, "C12.11", only=("array_add_at", "array_push"))
         _find_by_address(ck, P, cfg)
         _index_arithmetic(ck, P, cfg)
         _clean_failure(ck, P, cfg)
